@@ -167,16 +167,21 @@ class Frame:
         self,
         ctype_or_response: CommandFrame.CommandType | ResponseFrame.ResponseCode,
     ) -> bytes:
-        # TODO: support extended subunit types and ids.
-        return (
-            bytes(
-                [
-                    ctype_or_response,
-                    self.subunit_type << 3 | self.subunit_id,
-                    self.opcode,
-                ]
+        # TODO: support extended subunit types.
+        if self.subunit_id < 5 or self.subunit_id == 7:
+            subunit = bytes([self.subunit_type << 3 | self.subunit_id])
+        elif 5 < self.subunit_id < 5 + 255:
+            # Extended to the next byte
+            subunit = bytes([self.subunit_type << 3 | 5, self.subunit_id - 5])
+        elif 5 + 255 <= self.subunit_id <= 5 + 254 + 255:
+            # Extended to the next two bytes
+            subunit = bytes(
+                [self.subunit_type << 3 | 5, 0xFF, self.subunit_id - 5 - 254]
             )
-            + self.operands
+        else:
+            raise core.InvalidArgumentError("invalid subunit ID")
+        return (
+            bytes([ctype_or_response]) + subunit + bytes([self.opcode]) + self.operands
         )
 
     def to_string(self, extra: str) -> str:
